@@ -43,7 +43,9 @@ Record st := {
   htabs : PositiveMap.t (list (sx * sx));
   flags : rflags;
   files : list (text * text);       (* virtual file system *)
-  nfiles : N                        (* filenames.len() *)
+  nfiles : N;                       (* filenames.len() *)
+  mlog : list key                   (* ghost: keys pushed by executed defmacro forms;
+                                       never read by the evaluator, only by the theorems *)
 }.
 
 Definition sget (s : st) (k : key) : binding :=
@@ -52,7 +54,7 @@ Definition sget (s : st) (k : key) : binding :=
 Definition sput (s : st) (k : key) (b : binding) : st :=
   {| store := PositiveMap.add k b (store s); next_id := next_id s; log := log s;
      steps := steps s; fail_at := fail_at s; htabs := htabs s; flags := flags s;
-     files := files s; nfiles := nfiles s |}.
+     files := files s; nfiles := nfiles s; mlog := mlog s |}.
 
 Lemma sget_sput_same s k b : sget (sput s k b) k = b.
 Proof. unfold sget, sput; simpl. rewrite PositiveMap.gss. reflexivity. Qed.
@@ -82,8 +84,13 @@ Notation "' pat <- m ;; f" := (bind m (fun x => match x with pat => f end))
 Definition lift {A} (r : res A) : M A := fun s => (r, s).
 
 (* run [m]; whatever its outcome, continue with [k] on that outcome *)
+(* [Fuel] is not an outcome of tulisp but the model giving up: it is never *)
+(* handed to a handler                                                     *)
 Definition catch {A B} (m : M A) (k : res A -> M B) : M B :=
-  fun s => let '(r, s') := m s in k r s'.
+  fun s => match m s with
+           | (Fuel, s') => (Fuel, s')
+           | (r, s') => k r s'
+           end.
 
 Definition get_st : M st := fun s => (Ok s, s).
 Definition put_st (s' : st) : M unit := fun _ => (Ok tt, s').
